@@ -308,6 +308,9 @@ class Model:
             elif line.startswith("emit "):
                 head, rest = line.split(" :: ", 1)
                 res[("emit", head.split(" ")[1])] = rest
+            elif line.startswith("link "):
+                head, rest = line.split(" :: ", 1)
+                res[("link", head.split(" ")[1])] = rest
             elif line.startswith("ERR"):
                 errs.append(line)
         return res, errs
